@@ -104,6 +104,264 @@ fn programs(thorough: bool) -> Vec<(String, Vec<Stmt>)> {
     out
 }
 
+
+/// Listing rows of one file: per source line the (address, byte) pairs shown for it, a row's bytes counted on
+/// from the row's address; plus the sequence of line numbers in row order.
+fn parse_listing(lst: &str, n_lines: usize, bpl: usize) -> (Vec<Vec<(usize, u8)>>, Vec<usize>, Vec<String>) {
+    let mut got: Vec<Vec<(usize, u8)>> = vec![vec![]; n_lines];
+    let mut line_seq: Vec<usize> = vec![];
+    let mut problems: Vec<String> = vec![];
+    for row in lst.lines() {
+        if row.len() < 5 {
+            continue;
+        }
+        let ln: usize = match row[..5].trim().parse::<usize>() {
+            Ok(n) => n - 1,
+            Err(_) => {
+                problems.push(format!("row without line number: {:?}", row));
+                continue;
+            }
+        };
+        if ln >= n_lines {
+            problems.push(format!("row for line {} beyond the file", ln + 1));
+            continue;
+        }
+        if line_seq.last() != Some(&ln) {
+            line_seq.push(ln);
+        }
+        let rest = &row[5..];
+        if rest.len() >= 6 && rest.as_bytes().get(5) == Some(&b':') {
+            if let Ok(addr) = usize::from_str_radix(rest[1..5].trim(), 16) {
+                let bytes_field: String = rest[6..].chars().take(bpl * 3 + 1).collect();
+                let mut a = addr;
+                for tok in bytes_field.split_whitespace() {
+                    if tok.len() == 2 {
+                        if let Ok(b) = u8::from_str_radix(tok, 16) {
+                            got[ln].push((a, b));
+                            a += 1;
+                            continue;
+                        }
+                    }
+                    break;
+                }
+            }
+        }
+    }
+    (got, line_seq, problems)
+}
+
+// ------------------------------------------------------------------------------------------------
+// imports: differential against the same text placed in a scope at the import site
+// ------------------------------------------------------------------------------------------------
+
+/// One import of `o.asm` in main.asm: the statement and what stands for it in the single-file twin.
+struct ImportSite {
+    /// the import statement (one line)
+    import_line: String,
+    /// the lines that replace it in the twin: opening line(s), then the file's lines, then `}`
+    open: Vec<String>,
+}
+
+/// (name, lines of main.asm with `@I0`/`@I1` marking the import sites, import sites, lines of o.asm)
+fn import_cases() -> Vec<(String, Vec<String>, Vec<ImportSite>, Vec<String>)> {
+    let s = |v: &[&str]| v.iter().map(|x| x.to_string()).collect::<Vec<String>>();
+    let bodies: Vec<(&str, Vec<String>)> = vec![
+        ("code", s(&["ol: lda #$11", "sta $d020", "jmp ol", ".byte 1, 2, 3"])),
+        ("long-line", s(&[".byte 1, 2, 3, 4, 5, 6, 7, 8, 9, 10, 11, 12, 13, 14, 15, 16, 17, 18, 19, 20", "rts"])),
+        ("loop", s(&[".loop 3 {", "lda #index", "sta $d020", "}", "rts"])),
+        ("macro", s(&[".macro om(q) {", "lda #q", "}", "om(1)", "nop", "om(2)"])),
+        ("parameter", s(&["lda #v", ".if v == 1 {", "inx", "} else {", "iny", "dey", "}", "rts"])),
+    ];
+    let mut out = vec![];
+    for (bn, body) in &bodies {
+        let uses_v = *bn == "parameter";
+        let site = |k: usize, val: i64, ns: bool| -> ImportSite {
+            let block = if uses_v { format!(" {{ .const v = {} }}", val) } else { String::new() };
+            if ns {
+                ImportSite {
+                    import_line: format!(".import * as i{} from \"o.asm\"{}", k, block),
+                    open: if uses_v { vec![format!("i{}: {{ .const v = {}", k, val)] } else { vec![format!("i{}: {{", k)] },
+                }
+            } else {
+                ImportSite {
+                    import_line: format!(".import * from \"o.asm\"{}", block),
+                    open: if uses_v { vec![format!("{{ .const v = {}", val)] } else { vec!["{".to_string()] },
+                }
+            }
+        };
+        // imported once: plain and under a namespace; in front of, between and behind code of main.asm
+        for ns in [false, true] {
+            for (pn, pre, post) in [("first", 0usize, 2usize), ("middle", 2, 1), ("last", 3, 0)] {
+                let mut main: Vec<String> = (0..pre).map(|i| format!("lda #{}", 0x20 + i)).collect();
+                main.push("@I0".into());
+                main.extend((0..post).map(|i| format!("ldx #{}", 0x30 + i)));
+                out.push((format!("import-{}-{}-{}", bn, if ns { "ns" } else { "star" }, pn), main, vec![site(0, 1, ns)], body.clone()));
+            }
+        }
+        // imported twice (every line of o.asm emits twice), with code in between; also inside a segment
+        let main = s(&["nop", "@I0", "inx", "@I1", "rts"]);
+        out.push((format!("import-{}-twice", bn), main, vec![site(0, 1, true), site(1, 2, true)], body.clone()));
+        let main = s(&[".define segment {", "name = \"sa\"", "start = $4000", "}", "nop", "@I0", ".segment \"sa\" {", "@I1", "}", "rts"]);
+        out.push((format!("import-{}-twice-two-segments", bn), main, vec![site(0, 1, true), site(1, 2, true)], body.clone()));
+    }
+    out
+}
+
+/// `main.asm` + `o.asm` against the twin in which every import is replaced by a scope holding the
+/// file's text: every line of main.asm and of o.asm must show, in the listing, the bytes and row
+/// addresses that the corresponding twin lines show (a line of o.asm that is imported twice: those
+/// of its two copies, in that order), and the source map must attribute the same address ranges to
+/// the same columns of those lines. The twin is a single file, i.e. inside the space the
+/// certificate oracle above decides.
+fn check_imports(ctx: &Ctx, bpl_list: &[usize]) {
+    for (name, main_tpl, sites, other) in import_cases() {
+        let mut main: Vec<String> = vec![];
+        let mut twin: Vec<String> = vec![];
+        // twin line -> (file, line): 0 = main.asm, 1 = o.asm
+        let mut origin: Vec<Option<(usize, usize)>> = vec![];
+        for l in &main_tpl {
+            if let Some(k) = l.strip_prefix("@I") {
+                let site = &sites[k.parse::<usize>().unwrap()];
+                main.push(site.import_line.clone());
+                for o in &site.open {
+                    twin.push(o.clone());
+                    origin.push(None);
+                }
+                for (i, ol) in other.iter().enumerate() {
+                    twin.push(ol.clone());
+                    origin.push(Some((1, i)));
+                }
+                twin.push("}".into());
+                origin.push(None);
+            } else {
+                origin.push(Some((0, main.len())));
+                main.push(l.clone());
+                twin.push(l.clone());
+            }
+        }
+        let (main_text, other_text, twin_text) = (main.join("\n"), other.join("\n"), twin.join("\n"));
+        let case = json!({"kind": "c11-import", "program": name, "files": {"main.asm": main_text, "o.asm": other_text}, "twin": twin_text});
+        let opts = Opts { keep_ctx: true, move_macro: true, ..Default::default() };
+        ctx.eval(|| json!({"program": name}));
+        let (a, b) = match (
+            probe::assemble(&[("main.asm", &main_text), ("o.asm", &other_text)], &opts),
+            probe::assemble(&[("main.asm", &twin_text)], &opts),
+        ) {
+            (Ok(a), Ok(b)) => (a, b),
+            (Err(p), _) | (_, Err(p)) => {
+                ctx.finding(Finding::new(format!("listing:panic:{}", p.site), format!("{} panics: {}", name, p.message), case.clone()));
+                continue;
+            }
+        };
+        if !a.ok() || !b.ok() || a.segs != b.segs {
+            // (the equivalence of an import and its expansion is C07's subject: no verdict here)
+            ctx.count("import_cases_not_equivalent_to_their_twin");
+            ctx.note(format!("{}: import and twin differ or do not assemble: {:?} / {:?}", name, a.messages(), b.messages()));
+            continue;
+        }
+        ctx.nontrivial(fnv_str(&name));
+        let (cga, cgb) = (a.ctx.as_ref().unwrap(), b.ctx.as_ref().unwrap());
+        // ---- source map: (file, line, column range, target range) multisets
+        let entries = |built: &probe::Built, twin_side: bool| -> Vec<(usize, usize, usize, usize, usize, usize)> {
+            let cg = built.ctx.as_ref().unwrap();
+            let tree = built.tree.as_ref().unwrap();
+            let mut v = vec![];
+            for off in cg.source_map().offsets() {
+                if off.pc.is_empty() {
+                    continue;
+                }
+                let sl = tree.code_map.look_up_span(off.span);
+                let file_is_other = sl.file.name().ends_with("o.asm");
+                let (file, line) = if twin_side {
+                    match origin.get(sl.begin.line).copied().flatten() {
+                        Some(fl) => fl,
+                        None => (9, sl.begin.line),
+                    }
+                } else {
+                    (file_is_other as usize, sl.begin.line)
+                };
+                v.push((file, line, sl.begin.column, sl.end.column, off.pc.start, off.pc.end));
+            }
+            v.sort();
+            v
+        };
+        let (ea, eb) = (entries(&a, false), entries(&b, true));
+        if ea != eb {
+            let only_a: Vec<_> = ea.iter().filter(|x| !eb.contains(x)).take(3).collect();
+            let only_b: Vec<_> = eb.iter().filter(|x| !ea.contains(x)).take(3).collect();
+            ctx.finding(Finding::new(
+                "sourcemap:import:differs-from-inline-scope".to_string(),
+                format!("{}: source map entries (file, line, columns, target range) only with the import: {:?}; only with the same text in a scope: {:?}", name, only_a, only_b),
+                case.clone(),
+            ));
+        }
+        // ---- listings
+        for bpl in bpl_list {
+            ctx.eval(|| json!({"program": name, "bytes_per_line": bpl}));
+            let (la, lb) = match (mvlib::panics::guard(|| to_listing(cga, *bpl)), mvlib::panics::guard(|| to_listing(cgb, *bpl))) {
+                (Ok(Ok(x)), Ok(Ok(y))) => (x, y),
+                (Err(p), _) | (_, Err(p)) => {
+                    ctx.finding(Finding::new(format!("listing:panic:{}", p.site), format!("{}: to_listing({}) panics: {}", name, bpl, p.message), case.clone()));
+                    continue;
+                }
+                _ => continue,
+            };
+            let text_of = |l: &HashMap<std::path::PathBuf, String>, f: &str| l.iter().find(|(p, _)| p.to_string_lossy().ends_with(f)).map(|(_, t)| t.clone());
+            let twin_l = match text_of(&lb, "main.asm") {
+                Some(t) => t,
+                None => continue,
+            };
+            let (twin_rows, _, _) = parse_listing(&twin_l, twin.len(), *bpl);
+            // expected per (file, line): the twin's bytes of all copies of that line, in twin order
+            let mut expected: [Vec<Vec<(usize, u8)>>; 2] = [vec![vec![]; main.len()], vec![vec![]; other.len()]];
+            for (tl, o) in origin.iter().enumerate() {
+                if let Some((f, l)) = o {
+                    expected[*f][*l].extend(twin_rows[tl].iter().copied());
+                }
+            }
+            for (f, fname, n) in [(0usize, "main.asm", main.len()), (1, "o.asm", other.len())] {
+                let lst = match text_of(&la, fname) {
+                    Some(t) => t,
+                    None => {
+                        ctx.finding(Finding::new("listing:no-listing-for-file", format!("{}: no listing for {}", name, fname), case.clone()));
+                        continue;
+                    }
+                };
+                let (got, line_seq, mut problems) = parse_listing(&lst, n, *bpl);
+                if line_seq != (0..n).collect::<Vec<_>>() && line_seq != (0..n.saturating_sub(1)).collect::<Vec<_>>() {
+                    problems.push(format!("source lines of {} appear as {:?}, expected each of 1..{} once in order", fname, line_seq.iter().map(|l| l + 1).collect::<Vec<_>>(), n));
+                }
+                for p in problems {
+                    ctx.finding(Finding::new("listing:import:lines".to_string(), format!("{} ({} bytes per line): {}", name, bpl, p), case.clone()));
+                }
+                for l in 0..n {
+                    let gb: Vec<u8> = got[l].iter().map(|x| x.1).collect();
+                    let eb: Vec<u8> = expected[f][l].iter().map(|x| x.1).collect();
+                    let mut what = None;
+                    if gb != eb {
+                        what = Some(("bytes", format!("{} line {} shows bytes {} but the same line in a scope at the import site emits {}", fname, l + 1, crate::util::hex_bytes(&gb), crate::util::hex_bytes(&eb))));
+                    } else {
+                        let mut k = 0;
+                        while k < got[l].len() {
+                            if got[l][k].0 != expected[f][l][k].0 && *bpl == 1 {
+                                // (with one byte per row every byte carries its own address; with wider rows the
+                                // grouping of a twice-imported line's bytes differs from the twin's by construction)
+                                what = Some(("misplaced", format!("{} line {}: byte #{} is labelled ${:04x} but is at ${:04x}", fname, l + 1, k, got[l][k].0, expected[f][l][k].0)));
+                                break;
+                            }
+                            k += 1;
+                        }
+                    }
+                    if let Some((kind, w)) = what {
+                        ctx.finding(Finding::new(format!("listing:import:{}", kind), format!("{} ({} bytes per line): {}", name, bpl, w), case.clone()));
+                        break;
+                    }
+                }
+            }
+        }
+    }
+}
+
 fn class_of(name: &str) -> &'static str {
     if name.contains("overlapping") || name.contains("seg-pair") {
         "segments-overlap-or-relocated"
@@ -339,9 +597,22 @@ pub fn run(ctx: &Ctx, replay: Option<&Value>) -> i32 {
     let isa = Isa::new();
     if let Some(case) = replay {
         let text = case["files"]["main.asm"].as_str().unwrap_or("");
+        let other = case["files"]["o.asm"].as_str().unwrap_or("");
         let opts = Opts { keep_ctx: true, move_macro: true, ..Default::default() };
         println!("program:\n{}\n---", text);
-        if let Ok(b) = probe::assemble(&[("main.asm", text)], &opts) {
+        if let Some(t) = case["twin"].as_str() {
+            println!("o.asm:\n{}\n--- single-file twin:\n{}\n---", other, t);
+            if let Ok(b) = probe::assemble(&[("main.asm", t)], &opts) {
+                if let Some(cg) = &b.ctx {
+                    if let Ok(Ok(l)) = mvlib::panics::guard(|| to_listing(cg, 8)) {
+                        for (p, t) in l {
+                            println!("listing of the twin {}:\n{}", p.display(), t);
+                        }
+                    }
+                }
+            }
+        }
+        if let Ok(b) = probe::assemble(&[("main.asm", text), ("o.asm", other)], &opts) {
             if let Some(cg) = &b.ctx {
                 for off in cg.source_map().offsets() {
                     let sl = b.tree.as_ref().unwrap().code_map.look_up_span(off.span);
@@ -370,12 +641,13 @@ pub fn run(ctx: &Ctx, replay: Option<&Value>) -> i32 {
     ctx.set("programs", json!(progs.len()));
     let bpl: Vec<usize> = if thorough { (1..=16).collect() } else { vec![1, 8, 16] };
     progs.par_iter().for_each(|(name, prog)| check(ctx, &isa, name, prog, &bpl));
+    check_imports(ctx, &bpl);
     ctx.finish(
         "exploration",
-        "programs with every emitting statement kind, a line emitting more than 16 bytes, nested scopes, pc assignments and .align, loops (0/1/3 iterations), conditionals, a macro invoked 1-3 times and inside a loop, 1-2 segments plain / relocated / interleaved / with overlapping target ranges (all relocation pairs in thorough), a macro invocation line and a loop that emit into two segments x macro attribution mode x bytes-per-line 1..16 (quick 1, 8, 16). The certificate walker gives the emitting statement of every byte; the source map must attribute exactly those target ranges to spans inside those statements, and the listing must show per source line exactly those bytes in emission order with correct row addresses, every line once. non-trivial = certified successful build x attribution mode",
+        "programs with every emitting statement kind, a line emitting more than 16 bytes, nested scopes, pc assignments and .align, loops (0/1/3 iterations), conditionals, a macro invoked 1-3 times and inside a loop, 1-2 segments plain / relocated / interleaved / with overlapping target ranges (all relocation pairs in thorough), a macro invocation line and a loop that emit into two segments; imported files (once, twice with different parameters, into two segments) against their single-file twin x macro attribution mode x bytes-per-line 1..16 (quick 1, 8, 16). The certificate walker gives the emitting statement of every byte; the source map must attribute exactly those target ranges to spans inside those statements, and the listing must show per source line exactly those bytes in emission order with correct row addresses, every line once. non-trivial = certified successful build x attribution mode",
         true,
         &[
-            "imports are not covered (the certificate walker does not model them)",
+            "imports are decided differentially: main.asm + imported file against the single-file twin in which the import is replaced by a scope holding the file's text (35 cases: 5 file bodies x plain / namespace x position, imported twice, into two segments); the twin itself is inside the certified space",
             "contiguity of the non-first bytes of a listing row is not demanded (a row only carries its first address)",
             "statement extents come from the harness renderer (one statement per line)",
         ],
